@@ -134,6 +134,8 @@ func genC03Seq(cfg Config, emit Emit) {
 	genSeq(cfg, emit, "C03", 24, 240, 50)
 	// sessions that are needed and proper, the boundary on the attestation (or the grant it rests on)
 	genSeq(cfg, emit, "C03", 18, 180, 100)
+	// the window a token is issued with is the window written into it
+	genIssued(cfg, emit, map[bool]int{false: 60, true: 1200}[cfg.Thorough()])
 }
 
 // genSeq: mode = property on whose behalf the cases run; attPct = how often (in %) the token whose
@@ -186,6 +188,11 @@ func genSeq(cfg Config, emit Emit, mode string, nq, nt, attPct int) {
 					}
 				}
 			}
+		}
+		if i%3 == 2 && where == "any" && pos == w.Inv && len(w.Tokens) > 1 && i%4 != 3 {
+			// served twice: the boundary mostly on a proof, the invocation itself staying inside its window
+			pos = (w.Inv + 1 + cfg.Rng.Intn(len(w.Tokens)-1)) % len(w.Tokens)
+			where = "proof"
 		}
 		sh := shapes[i%len(shapes)]
 		t := &w.Tokens[pos]
